@@ -18,6 +18,7 @@
 //   conv <to> <from> <x>      in_range<To> saturate_cast<To>
 //   row <lo> <hi> <op> <args...>   runs "<op> <args...> y" for every y in [lo, hi]; the legs are the
 //                             per-y legs joined by " ; "
+//   rox <lo> <hi> <op> <args...> <last>   the same with y inserted before the last argument
 #include "common.hpp"
 
 #include <algorithm>
@@ -367,7 +368,8 @@ static bool run_one(std::string const& op, Toks& in, Out& impl, Out& ref)
 
 bool vh::run_case(std::string const& op, Toks& in, Out& impl, Out& ref)
 {
-    if (op != "row") { return run_one(op, in, impl, ref); }
+    if (op != "row" && op != "rox") { return run_one(op, in, impl, ref); }
+    bool before_last = op == "rox";
     i64 lo = in.num();
     i64 hi = in.num();
     std::string sub = in.str();
@@ -377,7 +379,11 @@ bool vh::run_case(std::string const& op, Toks& in, Out& impl, Out& ref)
     for (i64 y = lo; y <= hi; ++y) {
         Toks t("");
         t.t = args;
-        t.t.push_back(std::to_string(y));
+        if (before_last && !t.t.empty()) {
+            t.t.insert(t.t.end() - 1, std::to_string(y));
+        } else {
+            t.t.push_back(std::to_string(y));
+        }
         Out i1;
         Out r1;
         if (!run_one(sub, t, i1, r1)) { all = false; }
